@@ -8,10 +8,10 @@ use crate::pipe::{self, Deploy, Mode, Outcome, Pipe};
 use crate::rng::Rng;
 use crate::Opts;
 
-fn outcome_coq(o: &Outcome, remote: bool) -> String {
+fn outcome_coq(o: &Outcome, remote: bool, batch: usize, par: u64) -> String {
     match o {
         Outcome::Done(v) => format!("({} [{}])", if remote { "ODoneR" } else { "ODone" }, v.iter().map(|(k, x)| format!("({}, {})", if *k < 0 { format!("({k})") } else { k.to_string() }, if *x < 0 { format!("({x})") } else { x.to_string() })).collect::<Vec<_>>().join("; ")),
-        Outcome::Hang => "OHang".into(),
+        Outcome::Hang => format!("(OHangB {} {})", batch, par),
         _ => "OPanic".into(),
     }
 }
@@ -30,7 +30,7 @@ pub fn emit(sink: &mut CaseSink, p: &Pipe, configs: &[(Deploy, Mode)], watchdog:
         sink.count(&format!("mode_{}", match m { Mode::Single => "single", Mode::Fixed(_) => "fixed", Mode::Adaptive(_, _) => "adaptive" }));
         descr.push(json!({"deployment": d.describe(), "batch_mode": format!("{:?}", m), "outcome": match &o { Outcome::Done(v) => format!("{} elements: {:?}", v.len(), &v[..v.len().min(12)]), x => format!("{:?}", x) }}));
         if let Outcome::Panicked(m) = &o { eprintln!("C01 run panicked: {m}"); }
-        runs.push(outcome_coq(&o, matches!(d, Deploy::Remote(_))));
+        runs.push(outcome_coq(&o, matches!(d, Deploy::Remote(_)), match m { Mode::Single => 1, Mode::Fixed(n) => *n as usize, Mode::Adaptive(n, _) => *n as usize }, match d { Deploy::Local(p) => *p, Deploy::Remote(c) => c.iter().sum() }));
     }
     sink.count(if p.has_loop() { "with_loop" } else { "acyclic" });
     let term = format!("(Build_case {} [{}])", p.coq(), runs.join("; "));
@@ -50,6 +50,8 @@ pub fn generate(opts: &Opts, sink: &mut CaseSink) {
         }
         emit(sink, &p, &configs, watchdog);
     }
+    // loops with a side input joined inside the body (tiny loop sides, many keys)
+    crate::props::jobs::side_input_cases(&mut rng, sink, (if opts.thorough { 100 } else { 16 }) / opts.scale, watchdog);
 }
 
-pub const RULE: &str = "random pipelines (sources parallel or sequential, 0..600 elements with skewed keys; map/filter/flat_map/shuffle/replication changes; every aggregation form; joins inner/left/outer x hash/broadcast shipping x hash/sort-merge; merge; split diamonds closed by merge or join; replay and iterate loops with state-dependent bodies, internal shuffles and aggregations, bounds 0..4 and state conditions), each executed to completion under local(1), and two random deployments (local 1..8 or 2..3 loopback hosts with 1..4 cores) x batch modes (single, fixed 1/3/1024, adaptive); a watchdog of 60 s turns a job that does not finish into a hang. Non-trivial: >=2 input elements and >=2 runs; distinct = distinct case terms";
+pub const RULE: &str = "random pipelines (sources parallel or sequential, 0..600 elements with skewed keys; map/filter/flat_map/shuffle/replication changes; every aggregation form; joins inner/left/outer x hash/broadcast shipping x hash/sort-merge; merge; split diamonds closed by merge or join; replay and iterate loops with state-dependent bodies, internal shuffles, aggregations and joins with side inputs defined outside the loop, bounds 0..4 and state conditions), each executed to completion under local(1), and two random deployments (local 1..8 or 2..3 loopback hosts with 1..4 cores) x batch modes (single, fixed 1/3/1024, adaptive); a watchdog of 60 s turns a job that does not finish into a hang. Non-trivial: >=2 input elements and >=2 runs; distinct = distinct case terms";
